@@ -210,12 +210,25 @@ class MemoryCache(Cache):
                     del self.expirations[expiration_time]
             time.sleep(self.expire_freq)
 
+    @staticmethod
+    def _resource_key():
+        """Return the ``store`` key of the resource being requested.
+
+        This is the URL of the request; '%' and '?' inside its path are
+        written percent-encoded, so that the first '?' of the key always
+        separates the path from the query string (a path may contain a
+        '?' that the client sent as '%3F').
+        """
+        path = cherrypy.url().replace('%', '%25').replace('?', '%3F')
+        qs = cherrypy.serving.request.query_string
+        return path + '?' + qs if qs else path
+
     def get(self):
         """Return the current variant if in the cache, else None."""
         request = cherrypy.serving.request
         self.tot_gets += 1
 
-        uri = cherrypy.url(qs=request.query_string)
+        uri = self._resource_key()
         uricache = self.store.get(uri)
         if uricache is None:
             return None
@@ -234,7 +247,7 @@ class MemoryCache(Cache):
         request = cherrypy.serving.request
         response = cherrypy.serving.response
 
-        uri = cherrypy.url(qs=request.query_string)
+        uri = self._resource_key()
         uricache = self.store.get(uri)
         if uricache is None:
             uricache = AntiStampedeCache()
@@ -262,8 +275,7 @@ class MemoryCache(Cache):
 
     def delete(self):
         """Remove ALL cached variants of the current resource."""
-        uri = cherrypy.url(qs=cherrypy.serving.request.query_string)
-        self.store.pop(uri, None)
+        self.store.pop(self._resource_key(), None)
 
 
 def get(invalid_methods=('POST', 'PUT', 'DELETE'), debug=False, **kwargs):
